@@ -26,50 +26,46 @@ Fixpoint truthy (b : bytes) : bool :=
 Fixpoint le_val (b : bytes) : Z :=
   match b with [] => 0%Z | x :: r => (Z.of_N x + 256 * le_val r)%Z end.
 
-(* CScriptNum decoding: little-endian, sign bit = bit 7 of the last byte *)
-Definition num_decode (b : bytes) : Z :=
-  match rev b with
-  | [] => 0%Z
-  | last :: _ =>
-    let mag := le_val b in
-    let n := length b in
-    if N.leb 128 last
-    then (- (mag - 128 * 256 ^ (Z.of_nat n - 1)))%Z
-    else mag
+(* CScriptNum decoding: little-endian magnitude, sign bit = bit 7 of the last byte.
+   [dec_mag] returns (magnitude, negative?) *)
+Fixpoint dec_mag (b : bytes) : Z * bool :=
+  match b with
+  | [] => (0%Z, false)
+  | x :: r =>
+    match r with
+    | [] => if N.leb 128 x then ((Z.of_N x - 128)%Z, true) else (Z.of_N x, false)
+    | _ => let '(m, s) := dec_mag r in ((Z.of_N x + 256 * m)%Z, s)
+    end
   end.
+Definition num_decode (b : bytes) : Z :=
+  let '(m, s) := dec_mag b in if s then (- m)%Z else m.
 
-(* little-endian bytes of a non-negative number, minimal length (0 -> []) ; fuel = positive size *)
-Fixpoint le_bytes_fuel (fuel : nat) (z : Z) : bytes :=
+(* CScriptNum encoding (minimal): magnitude little-endian; the sign bit goes into the top
+   byte if it is free (< 0x80), otherwise an extra byte carries it.  Fuel 10 covers 64-bit. *)
+Fixpoint enc_mag (fuel : nat) (z : Z) (sb : N) : bytes :=
   match fuel with
   | O => []
-  | S f => if (z <=? 0)%Z then [] else Z.to_N (z mod 256) :: le_bytes_fuel f (z / 256)
+  | S f =>
+    if (z <? 128)%Z then [(Z.to_N z + sb)%N]
+    else if (z <? 256)%Z then [Z.to_N z; sb]
+    else Z.to_N (z mod 256) :: enc_mag f (z / 256) sb
   end.
-Definition le_bytes (z : Z) : bytes := le_bytes_fuel (S (Z.to_nat (Z.log2 z))) z.
-
-(* CScriptNum encoding (minimal) *)
 Definition num_encode (z : Z) : bytes :=
-  if (z =? 0)%Z then [] else
-  let neg := (z <? 0)%Z in
-  let mag := le_bytes (Z.abs z) in
-  match rev mag with
-  | [] => []
-  | top :: rest_rev =>
-    if N.leb 128 top
-    then mag ++ [if neg then 128%N else 0%N]
-    else rev ((if neg then (top + 128)%N else top) :: rest_rev)
-  end.
+  if (z =? 0)%Z then [] else enc_mag 10 (Z.abs z) (if (z <? 0)%Z then 128%N else 0%N).
 
-(* MINIMALDATA rule for numbers *)
-Definition num_minimal (b : bytes) : bool :=
-  match rev b with
+(* MINIMALDATA rule for numbers: the top byte may be 0x00/0x80 only if the byte below has bit 7 set *)
+Fixpoint num_minimal (b : bytes) : bool :=
+  match b with
   | [] => true
-  | last :: rest_rev =>
-    if N.eqb (N.land last 127) 0 then
-      match rest_rev with
-      | [] => false
-      | prev :: _ => N.leb 128 prev
+  | x :: r =>
+    match r with
+    | [] => negb (N.eqb (N.land x 127) 0)
+    | y :: r2 =>
+      match r2 with
+      | [] => if N.eqb (N.land y 127) 0 then N.leb 128 x else true
+      | _ => num_minimal r
       end
-    else true
+    end
   end.
 
 (* operand of arithmetic opcodes: at most [maxlen] bytes and minimal *)
